@@ -102,11 +102,13 @@ int main()
   return (mant_ok && back_ok) ? 0 : 1;
 }
 """
+    def far(P, RET, Q, G):
+        return z3.Or(zabs(G["g_mant"]) < z3.RealVal("0.5"), zabs(G["g_mant"]) > 1500)
     U.mfn("x_prettyDouble", "real", {"printed_mantissa_is_between_1_and_1000": mant_ok, "suffix_multiplies_the_mantissa_back_to_the_input": scale_ok, "prints_exactly_once_and_plain_numbers_unscaled": plain_ok},
-          models=MODELS, exact_f32=True, replay_native=PRETTY_REPLAY % dict(param="val", fn="prettyDouble", arg="v"))
+          models=MODELS, exact_f32=True, prefer=far, replay_native=PRETTY_REPLAY % dict(param="val", fn="prettyDouble", arg="v"))
     U.mfn("x_prettyNumber", "real", {"printed_mantissa_is_between_1_and_1000": lambda P, RET, Q, G: mant_ok(P, RET, Q, G, 0, 20), "suffix_multiplies_the_mantissa_back_to_the_input": lambda P, RET, Q, G: scale_ok(P, RET, Q, G, 0, 20),
                                      "prints_exactly_once_and_small_numbers_unscaled": plain_ok},
-          requires=lambda P: [P[0] >= 0, P[0] < z3.RealVal(2) ** 64], models=MODELS, exact_f32=True, replay_native=PRETTY_REPLAY % dict(param="s", fn="prettyNumber", arg="(size_t)v"))
+          requires=lambda P: [P[0] >= 0, P[0] < z3.RealVal(2) ** 64], models=MODELS, exact_f32=True, prefer=far, replay_native=PRETTY_REPLAY % dict(param="s", fn="prettyNumber", arg="(size_t)v"))
     S = Unit("c18_strings", "units/c18_strings.cpp", opts=dict(tracked_vec=True, tracked_str=True))
     MAXS = "1099511627776ul"
     def SINV(v):
